@@ -143,6 +143,9 @@ structure PrivateInfo where
   forceBold : Bool
   defaultWidth : Dec
   nominalWidth : Dec
+  blueScale : Dec
+  stdHW : Dec
+  stdVW : Dec
 deriving Repr
 
 structure FontSummary where
@@ -159,7 +162,19 @@ structure FontSummary where
   privs : List PrivateInfo
   widths : List Dec
   encoding : Option (List Nat)   -- simple fonts with a custom encoding: glyph of every code
+  italicAngle : Dec
+  fontMatrix : List Dec
+  fdMatrices : List (List Dec)
 deriving Repr
+
+/-- "FontMatrix array 0.001 0 0 0.001 0 0" (Top DICT and Font DICTs) -/
+def Dict.matrix (d : Dict) (dflt : List Dec) : Option (List Dec) :=
+  match d.get 3079 with
+  | none => some dflt
+  | some xs => if xs.length = 6 then xs.mapM operandDec else none
+
+def fm001 : List Dec := [Dec.norm ⟨false, 1, -3⟩, Dec.ofInt 0, Dec.ofInt 0, Dec.norm ⟨false, 1, -3⟩, Dec.ofInt 0, Dec.ofInt 0]
+def fmId : List Dec := [Dec.ofInt 1, Dec.ofInt 0, Dec.ofInt 0, Dec.ofInt 1, Dec.ofInt 0, Dec.ofInt 0]
 
 def readPrivate (std custom : Array String) (data : Bytes) (d : Dict) : Option PrivateInfo := do
   -- "Private: number number — Private DICT size and offset (0)"
@@ -176,7 +191,10 @@ def readPrivate (std custom : Array String) (data : Bytes) (d : Dict) : Option P
     blueValues := bv, otherBlues := ob,
     blueShift := ← Dict.int pd 3082 7, blueFuzz := ← Dict.int pd 3083 1,
     forceBold := (← Dict.int pd 3086 0) ≠ 0,
-    defaultWidth := ← Dict.num pd 20 (Dec.ofInt 0), nominalWidth := ← Dict.num pd 21 (Dec.ofInt 0) }
+    defaultWidth := ← Dict.num pd 20 (Dec.ofInt 0), nominalWidth := ← Dict.num pd 21 (Dec.ofInt 0),
+    -- "BlueScale number 0.039625", "StdHW number", "StdVW number"
+    blueScale := ← Dict.num pd 3081 (Dec.norm ⟨false, 39625, -6⟩),
+    stdHW := ← Dict.num pd 10 (Dec.ofInt 0), stdVW := ← Dict.num pd 11 (Dec.ofInt 0) }
 
 /-- "Header: Card8 major, Card8 minor, Card8 hdrSize, OffSize offSize.  […] Name INDEX, Top DICT
 INDEX, String INDEX, Global Subr INDEX follow the header in this order."  Then the Top DICT
@@ -211,7 +229,7 @@ def readFont (std : Array String) (data : Bytes) : Option FontSummary := do
   let charset ← specCharset data charsetOff.toNat nGlyphs
   let strs ← [0, 1, 3072, 2, 3, 4].mapM (Dict.str top)
   let isCID := (Dict.get top 3102).isSome
-  let (ros, fds, privs, gnames) ← (if isCID then do
+  let (ros, fds, privs, gnames, fdMats) ← (if isCID then do
       let ros ← match Dict.get top 3102 with
         | some [.str r, .str o, .int s] => some (r, o, s)
         | _ => none
@@ -219,16 +237,17 @@ def readFont (std : Array String) (data : Bytes) : Option FontSummary := do
       let (fontDicts, _) ← specIndex data fdaOff.toNat
       let fdsOff ← Dict.int top 3109 0
       let fds ← specFDSelect data fdsOff.toNat nGlyphs
-      let privs ← fontDicts.mapM fun fdBytes =>
+      let pm ← fontDicts.mapM fun fdBytes =>
         match decodeDict std custom fdBytes with
-        | .ok fd => readPrivate std custom data fd
+        | .ok fd => do pure (← readPrivate std custom data fd, ← Dict.matrix fd fm001)
         | _ => none
+      let privs := pm.map (·.1)
       if fds.any (· ≥ privs.length) then none
-      pure (some ros, fds, privs, (none : Option (List String)))
+      pure (some ros, fds, privs, (none : Option (List String)), pm.map (·.2))
     else do
       let p ← readPrivate std custom data top
       let gn ← charset.mapM fun (sid : Nat) => stringsGet std custom (Int.ofNat sid)
-      pure (none, List.replicate nGlyphs 0, [p], some gn))
+      pure (none, List.replicate nGlyphs 0, [p], some gn, []))
   let widths ← (charStrings.zip fds).mapM fun (cs, fd) => do
     let p ← privs[fd]?
     match ← t2WidthArg cs with
@@ -239,6 +258,10 @@ def readFont (std : Array String) (data : Bytes) : Option FontSummary := do
   let encoding ← (if isCID ∨ encOff ≤ 1 then pure none
     else (specEncoding data encOff.toNat charset).map some : Option (Option (List Nat)))
   pure {
+    italicAngle := ← Dict.num top 3074 (Dec.ofInt 0),
+    -- the writer under test uses the identity as default for CID-keyed fonts' Top DICT
+    fontMatrix := ← Dict.matrix top (if isCID then fmId else fm001),
+    fdMatrices := fdMats,
     encoding := encoding,
     fontName := fontName, strs := strs,
     isFixedPitch := (← Dict.int top 3073 0) ≠ 0,
